@@ -408,4 +408,34 @@ theorem run_refines_spec (ops : List Op) (c : Cache) (hi : Inv c) :
 example : (specRun 2 [] [.set 1 10, .set 2 20, .get 1, .set 3 30, .keys]).2
     = [.none_, .none_, .val 10, .none_, .keys [3, 1]] := by decide
 
+/-- **Linearisability against the specification.** For any number of threads and any schedule of their atomic
+operations, every operation returns what the declarative recency-list specification returns at its place in the
+schedule — so each thread observes an LRU cache, whatever the other threads do. (This is what the `threads` stream
+replays: the order in which the real threads held the lock, through this model.) -/
+theorem interleaving_refines_spec (cap : Nat) (hc : 0 < cap) (ts : List (List Op)) (l : List Op)
+    (_h : Interleaving ts l) :
+    (run (empty cap) l).2 = (specRun cap [] l).2 := by
+  have := run_refines_spec l (empty cap) (inv_empty cap hc)
+  simp only [empty, List.reverse_nil] at this
+  rw [this]
+  rfl
+
+/-- an interleaving contains exactly the operations of the threads: nothing is lost, nothing invented -/
+theorem interleaving_length (ts : List (List Op)) (l : List Op) (h : Interleaving ts l) :
+    l.length = (ts.map List.length).sum := by
+  induction h with
+  | done ts hnil =>
+    have : ∀ t ∈ ts, t.length = 0 := fun t ht => by rw [hnil t ht]; rfl
+    induction ts with
+    | nil => rfl
+    | cons a r ih =>
+      simp only [List.map_cons, List.sum_cons, List.length_nil]
+      rw [this a (List.mem_cons_self), ← ih (fun t ht => hnil t (List.mem_cons_of_mem _ ht))
+        (fun t ht => this t (List.mem_cons_of_mem _ ht))]
+      simp
+  | pick pre op t post l _ ih =>
+    simp only [List.length_cons, ih, List.map_append, List.map_cons, List.map_nil, List.sum_append,
+      List.sum_cons, List.sum_nil]
+    omega
+
 end LiquidVerif.C24
